@@ -161,8 +161,8 @@ var plans = map[string]Plan{
 		Pkg:   "c12",
 		Tools: []string{"bondgo"},
 		Runs: []Run{
-			{Test: "^TestProps$/^compile_faithful$", Checks: checks(25, 400), Shards: shards(4, 16), Timeout: tmo(15*time.Minute, 90*time.Minute)},
-			{Test: "^TestProps$/^compile_full$", Checks: checks(13, 250), Shards: shards(4, 16), Timeout: tmo(15*time.Minute, 90*time.Minute)},
+			{Test: "^TestProps$/^compile_faithful$", Checks: checks(60, 400), Shards: shards(4, 16), Timeout: tmo(15*time.Minute, 90*time.Minute)},
+			{Test: "^TestProps$/^compile_full$", Checks: checks(40, 250), Shards: shards(4, 16), Timeout: tmo(15*time.Minute, 90*time.Minute)},
 		},
 		Assumptions: []string{
 			"the real bondgo CLI (built from /repo with -tags verif) is run as a child process under a hard 10 s deadline for three schedule plans (GOMAXPROCS x VERIF_BONDGO_SCHED) per program; a hang is classified from a goroutine dump",
